@@ -108,6 +108,7 @@ type Unit struct {
 	maxPaths   int
 	aborted    string
 	cellTab    map[*ssa.Function]map[token.Pos]*ssa.Alloc
+	cellMulti  map[*ssa.Function]map[token.Pos][]*ssa.Alloc
 	aliasBase  map[*Region]*Region
 	except     map[string]*Term
 	recDepth   int
